@@ -176,7 +176,7 @@ def C19():
         technique="exceptional postconditions on the real validators: returns iff all elements legal (loop invariants over flat / jagged nested "
                   "values), raises only subclasses of ValueError; attribute existence taken from the real classes",
         trusted_base=[SOLVERS, ENGINE, "pydantic runs the registered validators on construction and wraps ValueError into ValidationError (L1)"],
-        assumptions=["validate_text_format, RTFFigure.validate_figure_data, the df / figure exclusivity part of RTFDocument.validate_column_names and "
+        assumptions=["RTFFigure.validate_figure_data, the df / figure exclusivity part of RTFDocument.validate_column_names and "
                      "the decorator-coverage lemma (which validator pydantic runs for which field) are not yet under contract in this check",
                      "empty vectors ([]) are outside the property's domain (validate_positive_value indexes v[0])"],
         replayers={"attributes.py::": R.replay_validators, "input.py::": R.replay_validators},
@@ -436,16 +436,20 @@ def C20():
 
 def C11():
     from contracts.textconv import UNITS, TABLES, BOUNDED
+    from contracts.textattrs import EncodeText
+    from contracts.headers import SublineHeader
     from contracts.row import ConvertSpecialChars
     from contracts.attributes import EncodeRows
     return Property(
-        "C11", units=[ContractUnit(u) for u in UNITS] + [ContractUnit(ConvertSpecialChars()), ContractUnit(EncodeRows())] + TABLES + BOUNDED, level="other",
+        "C11", units=[ContractUnit(u) for u in UNITS] + [ContractUnit(ConvertSpecialChars()), ContractUnit(EncodeRows()), ContractUnit(EncodeText()),
+                      ContractUnit(SublineHeader())] + TABLES + BOUNDED, level="other",
         technique="gating and dispatch contracts on the real convert_text_content / _convert_single_command / _convert_special_chars (convert off = "
                   "verbatim + escaping; per-cell binding of text_convert); the real tables (ordered literal mapping, 682 symbols, token pattern, "
                   "component defaults) evaluated exhaustively; bounded residual: real pipeline vs an independent reference converter over commands x templates",
         trusted_base=[SOLVERS, ENGINE, "str.replace / re.sub implement left-to-right non-overlapping replacement (assumed, L5); the LaTeX pass as a whole is an uninterpreted function in the proofs"],
         assumptions=["token language: the real pattern string is compared with the documented one (string equality, not language equivalence)",
-                     "_encode_text (.iloc(i, 0)) and encode_spanning_row (text_convert default False) bindings are not yet under contract in this check"],
+                     "title / footnote / source lines bind text_convert at their own row (unit EncodeText); the subline_by heading is never LaTeX-converted "
+                     "(unit SublineHeader); the encode_spanning_row default (text_convert False when the body leaves it unset) is not under contract"],
         replayers={}, design_ref="4/C11")
 
 
